@@ -19,7 +19,13 @@ RULE = ("One case = one solver call on a drawn (W, b, parameters). W is m x n wi
         "int / array (a few arrays with negative entries), relaxation (0, 1.5], beta_laplace [0, 0.2], Laplacian identity / 1-D "
         "(Neumann or Dirichlet) / 2-D 4- or 8-neighbour / random, max_iterations 1..60, conv_tol in {0, 1e-8..1e-1}, plus calls "
         "that rely on the documented defaults. NNLS / LSQ: alpha log-uniform in [1e-3, 10], Tikhonov matrix None / identity / "
-        "Laplacians / random. Reuse relation: about half of the cases make 2 or 3 calls (drawn) with the SAME Python objects "
+        "Laplacians / random. Input forms (only those the functions accept on the unchanged tree): for nnls / lstsq / svd W is "
+        "float64, float32, int64, int32 (0/1 incidence or small hit counts) or bool, b is float64, float32, int64 or int32, the "
+        "Tikhonov matrix float64, float32, int64, int32 or bool (identity / random 0-1), each C-ordered, Fortran-ordered or a "
+        "non-contiguous strided view; every result is certified against the float64 copy of exactly the numbers those arrays "
+        "hold. SART takes float64 W and b only (other dtypes raise in the typed memoryviews: outside the domain) in C / F / "
+        "strided layout, a Laplacian of any of the dtypes above, and the initial guess as float64 / float32 / int64 / int32 "
+        "array or plain list. Reuse relation: about half of the cases make 2 or 3 calls (drawn) with the SAME Python objects "
         "(geometry matrix, measurement vector, user-supplied Laplacian / Tikhonov matrix, initial-guess array) and drawn overrides "
         "of relaxation / beta_laplace / max_iterations resp. alpha ({} = identical repeat); every call is certified against "
         "pristine copies of the inputs taken before the first call, and after each call every caller-owned array must be "
@@ -45,6 +51,15 @@ ASSUMPTIONS = [
     "overwrite (and return) the initial_guess array: open finding C11-sart-guess-inplace. While it is open every call gets a fresh "
     "copy of the pristine guess (label known:guess_array_copied_per_call) and the guess array is exempt; the stored probe "
     "passes the same array twice and fails",
+    "nnls / lstsq copy W and b into float64 arrays, so float32 / integer / bool data are exact there and get the full float64 "
+    "certificate; alpha * tikhonov_matrix is formed by numpy in the dtype of the matrix when that is float32, i.e. the "
+    "regularisation block is rounded to float32: accepted as the code's arithmetic, certificate widened by the derived bound "
+    "(TOLERANCES 'float32 Tikhonov matrix'); integer and bool Tikhonov matrices are promoted to float64 and get the full certificate",
+    "invert_svd hands W to scipy.linalg.pinv, which works in single precision for float32 and bool matrices (scipy's documented "
+    "type promotion) and in double precision for float64 / int32 / int64: float32 / bool W therefore get a single-precision "
+    "certificate (label precision:single), int32 / int64 W the full one; float16, int8/16 and uint8 inputs are not generated",
+    "SART input forms: lists / non-float64 arrays for geometry_matrix and measurement_vector raise (typed memoryviews, no "
+    "attribute shape) and are outside the domain; numpy scalar guesses (np.float32(1)) raise as well and are not generated",
     "numpy.linalg.svd / norm / dot are trusted for the certificates (gradient, residual, null-space projector)",
     "scipy.optimize.nnls raising RuntimeError('Maximum number of iterations reached') is counted as inconclusive for that case",
     "while finding C11-nnls-scipy-nonoptimal is open, nnls cases on which scipy.optimize.nnls itself (called directly on the "
@@ -62,10 +77,22 @@ TOLERANCES = {
                                  "inconclusive:stop_ambiguous",
     "sart fixed point": "1e-11 * max|x*|: per iteration the update is bounded by relaxation * n * u * max|x*| (rounding of W x* "
                         "only) plus beta * |L| * u * max|x*|; 60 iterations * 1.5 * 12 * 1.1e-16 = 1.2e-13",
-    "eps (gradient)": "1e-8 * (|C|_2^2 |x|_2 + |C|_2 |d|_2): backward-stable LS solvers give c*u*(...) with c ~ 1e2; 1e8*u leaves "
-                      "six decades of room while a wrong alpha (>= 0.1% off) shifts the gradient by >> eps",
+    "eps (gradient)": "nnls / lstsq: 1e-12 * (|C|_2^2 |x|_2 + |C|_2 |d|_2). Householder-QR (Lawson-Hanson) and SVD (gelsd) solvers are "
+                      "backward stable: a-priori c*u*(...) with c ~ (m+n)*n <= 300, i.e. 7e-14, independent of the conditioning (a "
+                      "truncated singular value is <= 5e-15 |C|); largest value measured on the unchanged tree over 10 000 cases: "
+                      "3.1e-15. 1e-12 keeps 300x room and still exposes single-precision arithmetic (6e-8). It was 1e-8 before the "
+                      "measured miss of a float32-allocated stacked matrix. svd wrapper: 1e-8 * (|W|^2 |x| + |W| |b|), because the "
+                      "explicit product pinv(W) b is only accurate to u * kappa and kappa is allowed up to 1e7",
     "complementarity": "|g_i| x_i <= eps * max(x): implied by |g_i| <= eps on the support",
-    "rnorm": "|rnorm - |Cx-d|| <= 1e-8 * (|C||x| + |d|); lstsq residuals[0] vs |Cx-d|^2 <= 1e-8 * (|C||x| + |d|)^2",
+    "rnorm": "|rnorm - |Cx-d|| <= 1e-12 * (|C||x| + |d|); lstsq residuals[0] vs |Cx-d|^2 <= 1e-12 * (|C||x| + |d|)^2 (measured: 9e-16, 1.1e-15)",
+    "float32 Tikhonov matrix": "the code solves with fl32(alpha L) = alpha L (1 + delta), |delta| <= 2^-24, hence |E x| <= sl := 2^-24 alpha "
+                               "|L|_F |x| for the perturbation E of the stacked matrix; gradient tolerance eps + 3 alpha |L|_F sl, "
+                               "rnorm tolerance + sl, residuals tolerance + sl (2 scale + sl)",
+    "svd single precision": "float32 / bool W (pinv computed in float32): |W^T(Wx-b)| <= 10 * 2^-24 * kappa * (|W|^2 |x| + |W| |b|) and "
+                            "null-space component <= 10 * 2^-24 * kappa * (|x| + |b|/sigma_r), kappa = sigma_max/sigma_r of the float64 "
+                            "data (Wedin bound for the pseudo-inverse of W + dW, |dW| ~ 2^-24 |W|, plus the explicit product P b), "
+                            "10 = dimension constant for n <= 12 (largest observed ratio to the bare bound: 2.4); rank decided at 1e-4 sigma_max (pinv cut-off 12 * 1.2e-7), cases "
+                            "with a singular value in [1e-14, 1e-4] sigma_max are inconclusive",
     "minimum norm (svd)": "|P_null(W) x| <= 1e-8 |x|, rank decided at 1e-7 * sigma_max, cases with a singular value in "
                           "[1e-14, 1e-7] * sigma_max labelled rank_ambiguous and not checked for minimum norm",
 }
@@ -82,7 +109,18 @@ REQUIRED_LABELS = [
     "sart:reuse:2", "sart:reuse:3", "sart:reuse:param_changed", "sart:reuse:same_params", "sart_fixed:reuse:2", "sart_fixed:reuse:3",
     "nnls:reuse:2", "nnls:reuse:3", "nnls:reuse:param_changed", "lstsq:reuse:2", "lstsq:reuse:3", "lstsq:reuse:param_changed",
     "svd:reuse:2", "svd:reuse:3",
-]
+    # input forms: dtypes / memory layouts the solvers accept on the unchanged tree
+] + ["%s:dtype:%s=%s" % (sub, a, d) for sub in ("nnls", "lstsq") for a, ds in
+     (("W", ("float32", "int64", "int32", "bool")), ("b", ("float32", "int64", "int32")), ("L", ("float32", "int64", "int32", "bool")))
+     for d in ds] + \
+    ["svd:dtype:%s=%s" % (a, d) for a, ds in (("W", ("float32", "int64", "int32", "bool")), ("b", ("float32", "int64", "int32")))
+     for d in ds] + \
+    ["%s:layout:%s=%s" % (sub, a, l) for sub in ("nnls", "lstsq", "svd", "sart") for a, ls in
+     (("W", ("F", "strided")), ("b", ("strided",))) for l in ls] + \
+    ["nnls:layout:L=strided", "lstsq:layout:L=strided", "nnls:layout:L=F", "lstsq:layout:L=F", "svd:precision:single",
+     "nnls:precision:L_float32", "lstsq:precision:L_float32",
+     "sart:dtype:L=float32", "sart:dtype:L=int64", "sart:dtype:L=int32", "sart:layout:L=strided",
+     "sart:guess:float32", "sart:guess:int64", "sart:guess:int32", "sart:guess:list"]
 
 U = 2.0 ** -52
 DEFAULTS = {"max_it": 250, "relax": 1.0, "conv_tol": 1.0e-4, "beta": 0.01, "alpha": 0.01}   # documented defaults
@@ -491,9 +529,12 @@ def _cert(W, b, L, alpha):
     return C, d
 
 
-def _eps(C, x, d):
+LS = 1e-12        # nnls / lstsq certificate coefficient (see TOLERANCES); the svd wrapper keeps 1e-8
+
+
+def _eps(C, x, d, coef=1e-8):
     nc = float(np.linalg.norm(C, 2)) if C.size else 0.0
-    return 1e-8 * (nc * nc * float(np.linalg.norm(x)) + nc * float(np.linalg.norm(d))), nc
+    return coef * (nc * nc * float(np.linalg.norm(x)) + nc * float(np.linalg.norm(d))), nc
 
 
 # ------------------------------------------------------------------------------------------------ run functions
@@ -743,10 +784,10 @@ def _reg_kw(prm, L):
 def _kkt_ok(C, d, x, rnorm):
     r = np.dot(C, x) - d
     g = np.dot(C.T, r)
-    eps, nc = _eps(C, x, d)
+    eps, nc = _eps(C, x, d, LS)
     xm = float(np.max(x)) if x.size else 0.0
     return bool(np.all(x >= 0) and np.all(g >= -eps) and np.all(np.abs(g) * x <= eps * xm)
-                and abs(rnorm - float(np.linalg.norm(r))) <= 1e-8 * (nc * float(np.linalg.norm(x)) + float(np.linalg.norm(d))))
+                and abs(rnorm - float(np.linalg.norm(r))) <= LS * (nc * float(np.linalg.norm(x)) + float(np.linalg.norm(d))))
 
 
 def _scipy_nnls_wrong(C, d):
@@ -790,7 +831,7 @@ def run_nnls(case, ctx):
         ctx.check(bool(np.all(x >= 0)), "nonneg", lambda: "negative entries %r%s" % (x.tolist(), tag))
         r = np.dot(C, x) - d
         g = np.dot(C.T, r)
-        eps, nc = _eps(C, x, d)
+        eps, nc = _eps(C, x, d, LS)
         sl = U32 * alpha * lfro * float(np.linalg.norm(x))      # float32 Tikhonov matrix only: bound on |(fl32(alpha L) - alpha L) x|
         eps += 3.0 * alpha * lfro * sl
         ctx.check(bool(np.all(g >= -eps)), "kkt-dual",
@@ -802,7 +843,7 @@ def run_nnls(case, ctx):
                   lambda: "|g_i| x_i = %.6g > eps*max(x) = %.3g at %d (g_i=%.6g, x_i=%.6g, alpha=%g)%s"
                   % (float(comp.max()), eps * xm, int(np.argmax(comp)), float(g[np.argmax(comp)]), float(x[np.argmax(comp)]), alpha, tag))
         rn = float(np.linalg.norm(r))
-        ctx.check(abs(rnorm - rn) <= 1e-8 * (nc * float(np.linalg.norm(x)) + float(np.linalg.norm(d))) + sl, "rnorm",
+        ctx.check(abs(rnorm - rn) <= LS * (nc * float(np.linalg.norm(x)) + float(np.linalg.norm(d))) + sl, "rnorm",
                   lambda: "reported residual norm %.12g, but |Cx-d| = %.12g (max(b)=%g)%s" % (rnorm, rn, float(b0.max()), tag))
         if bool(np.any((x == 0) & (g > eps))):
             any_active = True
@@ -829,7 +870,7 @@ def run_lstsq(case, ctx):
         ctx.check(x.shape == (n,) and bool(np.all(np.isfinite(x))), "shape", lambda: "bad solution %r%s" % (x.tolist(), tag))
         r = np.dot(C, x) - d
         g = np.dot(C.T, r)
-        eps, nc = _eps(C, x, d)
+        eps, nc = _eps(C, x, d, LS)
         sl = U32 * alpha * lfro * float(np.linalg.norm(x))      # float32 Tikhonov matrix only, see run_nnls
         eps += 3.0 * alpha * lfro * sl
         ctx.check(float(np.linalg.norm(g)) <= eps, "normal-equations",
@@ -842,7 +883,7 @@ def run_lstsq(case, ctx):
             ctx.label("residuals:reported")
             rr = float(np.dot(r, r))
             scale = nc * float(np.linalg.norm(x)) + float(np.linalg.norm(d))
-            tol = 1e-8 * scale ** 2 + sl * (2.0 * scale + sl)
+            tol = LS * scale ** 2 + sl * (2.0 * scale + sl)
             ctx.check(abs(float(res[0]) - rr) <= tol, "residuals",
                       lambda: "reported residual %.12g, but |Cx-d|^2 = %.12g%s" % (float(res[0]), rr, tag))
         else:
@@ -899,8 +940,8 @@ def run_svd(case, ctx):
         nx, nb = float(np.linalg.norm(x)), float(np.linalg.norm(b0))
         mtol = 1e-8 * nx
         if single:
-            eps = 30.0 * U32 * kappa * (nc * nc * nx + nc * nb)
-            mtol = 30.0 * U32 * kappa * (nx + nb / sr)
+            eps = 10.0 * U32 * kappa * (nc * nc * nx + nc * nb)
+            mtol = 10.0 * U32 * kappa * (nx + nb / sr)
         ctx.check(float(np.linalg.norm(g)) <= eps, "normal-equations",
                   lambda: "|W^T(Wx-b)| = %.6g > eps = %.3g: x is not a least-squares solution%s" % (float(np.linalg.norm(g)), eps, tag))
         if not amb:
